@@ -17,7 +17,9 @@ RULE = ("pairs and triples of random trees (1-10 leaves quick, 25 thorough) over
         "(children shuffled, unifurcations inserted with the length split, unrooted trees re-seeded through an independent graph "
         "re-rooting); histories of structural edits (taxon swaps, length changes, leaf regrafts, on either tree) interleaved with "
         "calls of all five public functions with default arguments and with is_bipartitions_updated=True; trees over a second, "
-        "equal-looking namespace object. Non-trivial = the two trees differ in at least one split")
+        "equal-looking namespace object; namespace histories (members - mostly not the newest - removed with remove_taxon / "
+        "remove_taxon_label / del, then new ones added with new_taxon / require_taxon / add_taxon / by reading Newick) before two "
+        "trees are built over the result, judged on leaf-label sets. Non-trivial = the two trees differ in at least one split")
 MODELLED_NOT_VERIFIED = [
     "C04: the Lean model (Model/C04.lean on top of C01.encode) is hand-written from false_positives_and_negatives / _get_length_diffs; "
     "tied by comparing fp, fn, wRF, Euclid^2 and the missing-bipartition set per generated pair",
@@ -223,12 +225,49 @@ def case_of(op, trees, **extra):
     return c
 
 
-def trees_of_case(dendropy, c):
-    t1, _ = c01.tree_for_case(dendropy, c)
-    out = [t1]
-    for suf in ("2", "3"):
+class NamespaceBits(Exception):
+    """the namespace does not give its members the pairwise distinct bits a case needs: no distance over it can satisfy the statement"""
+
+
+def check_namespace_bits(tns, want=None):
+    """from scratch, through the public accessors only: every member has an accession index and the bitmask 1 << index, no two
+    members share one, and (when the case prescribes bits: {label: bit}) they are the prescribed ones"""
+    seen = {}
+    for t in tns:
+        i = tns.accession_index(t)
+        m = tns.taxon_bitmask(t)
+        if m != (1 << i):
+            raise NamespaceBits("taxon %r has accession index %d but bitmask %d" % (t.label, i, m))
+        if i in seen:
+            raise NamespaceBits("taxa %r and %r of one namespace share accession index %d (leaf bitmask %d)" % (seen[i], t.label, i, m))
+        seen[i] = t.label
+        if want is not None and want.get(t.label) != i:
+            raise NamespaceBits("taxon %r should carry bit %s (it was accession number %s of its namespace) but has %d" % (
+                t.label, want.get(t.label), want.get(t.label), i))
+
+
+def namespace_for_case(dendropy, ns):
+    """a namespace whose members carry exactly the recorded bits, built through the public API (all labels in accession order, then the
+    non-members removed) and verified from scratch"""
+    bits = list(ns["bits"])
+    total = max([int(ns.get("count", 0))] + [b + 1 for b in bits])
+    tns = dendropy.TaxonNamespace(["t%d" % i for i in range(total)])
+    keep = set(bits)
+    for i, t in enumerate(list(tns)):
+        if i not in keep:
+            tns.remove_taxon(t)
+    check_namespace_bits(tns, want={"t%d" % b: b for b in bits})
+    if sorted(t.label for t in tns) != sorted("t%d" % b for b in bits):
+        raise NamespaceBits("members %s, wanted bits %s" % ([t.label for t in tns], bits))
+    return tns
+
+
+def trees_of_case(dendropy, c, tns=None):
+    tns = tns or namespace_for_case(dendropy, c["ns"])
+    out = []
+    for suf in ("", "2", "3"):
         if ("tree" + suf) in c:
-            t, _ = tu.tree_from_tokens(dendropy, c["tree" + suf], rooted=UNROOT[c.get("rooted" + suf, c["rooted"])], tns=t1.taxon_namespace)
+            t, _ = tu.tree_from_tokens(dendropy, c["tree" + suf], rooted=UNROOT[c.get("rooted" + suf, c["rooted"])], tns=tns)
             out.append(t)
     return out
 
@@ -491,9 +530,9 @@ def judge_namespace(ctx, dendropy, case, pending):
         if case.get("fn") not in (None, name):
             continue
         for encoded in (False, True):
-            t1, _ = c01.tree_for_case(dendropy, case)
-            other = dict(case, tree=case["tree2"], rooted=case.get("rooted2", case["rooted"]))
-            t2, _ = c01.tree_for_case(dendropy, other)          # a second namespace object with the same labels and bits
+            t1 = trees_of_case(dendropy, {"ns": case["ns"], "tree": case["tree"], "rooted": case["rooted"]})[0]
+            t2 = trees_of_case(dendropy, {"ns": case["ns"], "tree": case["tree2"], "rooted": case.get("rooted2", case["rooted"])})[0]
+            # t2: over a second namespace object with the same labels and bits
             if t1.taxon_namespace is t2.taxon_namespace:
                 raise RuntimeError("harness: the two trees of a namespace case share their namespace")
             if encoded:
@@ -675,7 +714,156 @@ def judge_history(ctx, dendropy, case, pending, rng=None, nsteps=0):
     return case
 
 
-JUDGES = {"dist": judge_dist, "exh": judge_dist, "symmetry": judge_dist, "redraw": judge_redraw, "redraw3": judge_dist,
+# ---- namespace histories: members removed and added through the public API before the trees are built; judged on leaf LABELS
+def label_table(tree):
+    """from scratch and without any bit: {split as label sets: total length}; rooted: the clade; else the unordered pair of sides"""
+    rooted = bool(tree.is_rooted)
+    below = {}
+    order = tu.walk(tree.seed_node)
+    for nd in reversed(order):
+        if not nd._child_nodes:
+            below[id(nd)] = frozenset([nd.taxon.label])
+        else:
+            below[id(nd)] = frozenset().union(*[below[id(c)] for c in nd._child_nodes])
+    everything = below[id(tree.seed_node)]
+    out = {}
+    for nd in order:
+        side = below[id(nd)]
+        key = side if rooted else frozenset([side, everything - side])
+        out[key] = out.get(key, Fraction(0)) + tu.F(nd.edge.length)
+    return out
+
+
+def newick_of(shape):
+    """shape: [label, length] for a leaf, [[children...], length] for an internal node; lengths as protocol fractions or 'N'"""
+    def go(sh):
+        head, l = sh
+        txt = head if isinstance(head, str) else "(" + ",".join(go(c) for c in head) + ")"
+        return txt if l == "N" else "%s:%r" % (txt, float(Fraction(l)))
+    return go(shape) + ";"
+
+
+def build_ns_history(dendropy, case):
+    """replay the namespace history through the public API, then build the trees of the case over the resulting namespace"""
+    tns = dendropy.TaxonNamespace(list(case["labels"]))
+    for ev in case["events"]:
+        lab, how = ev["label"], ev["how"]
+        if ev["do"] == "remove":
+            if how == "remove_taxon":
+                tns.remove_taxon(tns.get_taxon(lab))
+            elif how == "remove_taxon_label":
+                tns.remove_taxon_label(lab)
+            elif how == "del":
+                del tns[[t.label for t in tns].index(lab)]
+            else:
+                raise RuntimeError("harness: unknown removal %r" % how)
+        else:
+            if how == "new_taxon":
+                tns.new_taxon(lab)
+            elif how == "require_taxon":
+                tns.require_taxon(label=lab)
+            elif how == "add_taxon":
+                tns.add_taxon(dendropy.Taxon(label=lab))
+            elif how == "read":
+                pass          # first mentioned by a tree that is read into the namespace
+            else:
+                raise RuntimeError("harness: unknown addition %r" % how)
+    trees = []
+    for shape in case["shapes"]:
+        if case["build"] == "newick":
+            t = dendropy.Tree.get(data=newick_of(shape), schema="newick", taxon_namespace=tns, preserve_underscores=True)
+        else:
+            def go(sh):
+                head, l = sh
+                nd = dendropy.Node()
+                nd.edge.length = None if l == "N" else float(Fraction(l))
+                if isinstance(head, str):
+                    nd.taxon = tns.require_taxon(label=head)
+                else:
+                    for c in head:
+                        nd.add_child(go(c))
+                return nd
+            t = dendropy.Tree(taxon_namespace=tns, seed_node=go(shape))
+        t.is_rooted = UNROOT[case["rooted"]]
+        trees.append(t)
+    return tns, trees
+
+
+def judge_nshistory(ctx, dendropy, case, pending):
+    from dendropy.calculate import treecompare
+    tns, (t1, t2) = build_ns_history(dendropy, case)
+    if t1.taxon_namespace is not tns or t2.taxon_namespace is not tns:
+        raise RuntimeError("harness: trees of a namespace-history case are not over the case's namespace")
+    case = dict(case, basal_bifurcation_survives=basal_survives(t1) or basal_survives(t2))
+    tabs = [label_table(t1), label_table(t2)]
+    ctx.case(["nshistory", case["labels"], case["events"], case["shapes"], case["rooted"]], set(tabs[0]) != set(tabs[1]), sample=case, kind="nshistory")
+    for a, b in ((0, 1), (1, 0)):
+        d1, d2 = tabs[a], tabs[b]
+        fp, fn = o_rf(d1, d2)
+        how = "after a namespace history (members removed, then added), trees %d,%d: " % (a + 1, b + 1)
+        for name in FUNCS:
+            _, ts = build_ns_history(dendropy, case)          # fresh objects for every call
+            st, v = call(getattr(treecompare, name), ts[a], ts[b])
+            fcase = dict(case, fn=name)
+            if st == "E":
+                ctx.fail("exception", "%s%s raised %s" % (how, name, v), fcase)
+            elif name == "symmetric_difference" and v != fp + fn:
+                ctx.fail("definition", "%ssymmetric_difference = %s, splits (as leaf-label sets) in exactly one tree: %d" % (how, v, fp + fn), fcase)
+            elif name == "false_positives_and_negatives" and tuple(v) != (fp, fn):
+                ctx.fail("definition", "%sfalse_positives_and_negatives = %s, one-sided differences of the label-set splits are (%d, %d)" % (how, tuple(v), fp, fn), fcase)
+            elif name == "find_missing_bipartitions" and len(set(bp.split_bitmask for bp in v)) != fn:
+                ctx.fail("definition", "%sfind_missing_bipartitions returns %d distinct bipartitions, the reference tree has %d splits the other lacks" % (
+                    how, len(set(bp.split_bitmask for bp in v)), fn), fcase)
+            elif name == "weighted_robinson_foulds_distance" and not close(v, float(o_wrf(d1, d2))):
+                ctx.fail("weighted-value", "%sweighted RF = %r, L1 norm of the per-split (label sets) length differences = %s" % (how, v, o_wrf(d1, d2)), fcase)
+            elif name == "euclidean_distance" and not close(v, math.sqrt(float(o_euclid_sq(d1, d2)))):
+                ctx.fail("weighted-value", "%seuclidean_distance = %r, L2 norm of the per-split (label sets) length differences = sqrt(%s)" % (
+                    how, v, o_euclid_sq(d1, d2)), fcase)
+    check_namespace_bits(tns)      # last, so that the distances are judged even when this already explains them
+
+
+def gen_nshistory(ctx, dendropy):
+    rng = ctx.rng
+    n0 = rng.randint(3, 8)
+    labels = ["a%d" % i for i in range(n0)]
+    members, events, fresh, unread = list(labels), [], 0, set()
+    for _ in range(rng.randint(1, 3)):
+        for _ in range(rng.randint(1, 2)):
+            if len(members) <= 2:
+                break
+            # mostly NOT the newest member
+            present = [m for m in members if m not in unread]     # a label a tree will introduce is not in the namespace yet
+            if len(present) < 2:
+                break
+            lab = present[-1] if rng.random() < 0.15 else rng.choice(present[:-1])
+            members.remove(lab)
+            events.append({"do": "remove", "how": rng.choice(["remove_taxon", "remove_taxon_label", "del"]), "label": lab})
+        for _ in range(rng.randint(1, 3)):
+            lab = "b%d" % fresh
+            fresh += 1
+            members.append(lab)
+            how = rng.choice(["new_taxon", "require_taxon", "add_taxon", "read"])
+            if how == "read":
+                unread.add(lab)
+            events.append({"do": "add", "how": how, "label": lab})
+    leaves = list(members) if rng.random() < 0.7 else rng.sample(members, rng.randint(min(3, len(members)), len(members)))
+
+    def shape_of(sh, it, top):
+        l = "N" if top else tu.frac(tu.dyadic(rng, zero_rate=0.05))
+        if not sh:
+            return [next(it), l]
+        return [[shape_of(c, it, False) for c in sh], l]
+    shapes = []
+    for _ in range(2):
+        order = list(leaves)
+        rng.shuffle(order)
+        sh = tu.rand_shape(rng, len(order), p_poly=rng.choice([0.0, 0.3]), p_unary=0.0)
+        shapes.append(shape_of(sh, iter(order), True))
+    return {"op": "nshistory", "labels": labels, "events": events, "shapes": shapes, "rooted": rng.choice(["R", "U", "N"]),
+            "build": rng.choice(["newick", "nodes"])}
+
+
+JUDGES = {"nshistory": judge_nshistory, "dist": judge_dist, "exh": judge_dist, "symmetry": judge_dist, "redraw": judge_redraw, "redraw3": judge_dist,
           "stale": judge_dist, "triple": judge_triple, "namespace": judge_namespace, "history": judge_history}
 
 
@@ -683,6 +871,9 @@ def judge(ctx, dendropy, case, pending):
     """run one case; a library exception escaping a judge (outside the places where the statement allows a refusal) is a failure"""
     try:
         JUDGES[case["op"]](ctx, dendropy, case, pending)
+    except NamespaceBits as e:
+        ctx.fail("namespace-bits", "%s: the taxon namespace built for this case through the public API does not give its members "
+                 "pairwise distinct bits: %s" % (case["op"], e), case)
     except Exception as e:
         if not common.is_library_exception(e):
             raise
@@ -754,8 +945,8 @@ def gen_history(ctx, dendropy):
     return case_of("history", [t1, t2], first_calls=first, steps=[])
 
 
-OPS = [("pair", 0.42), ("redraw", 0.2), ("triple", 0.15), ("history", 0.15), ("namespace", 0.08)]
-GENS = {"pair": gen_pair, "redraw": gen_redraw, "triple": gen_triple, "history": gen_history, "namespace": gen_namespace}
+OPS = [("pair", 0.38), ("redraw", 0.18), ("triple", 0.14), ("history", 0.14), ("namespace", 0.07), ("nshistory", 0.09)]
+GENS = {"nshistory": gen_nshistory, "pair": gen_pair, "redraw": gen_redraw, "triple": gen_triple, "history": gen_history, "namespace": gen_namespace}
 
 
 def run_op(ctx, dendropy, op, pending):
@@ -823,7 +1014,7 @@ def replay(ctx, rec):
         run_op(ctx, dendropy, {"stale": "history"}.get(c["op"], c["op"]), pending)
     elif c.get("op") in JUDGES:
         case = {k: v for k, v in c.items() if k != "fn" or c.get("op") == "namespace"}
-        if "tree2" not in case:
+        if "tree2" not in case and case["op"] != "nshistory":
             raise RuntimeError("harness: replay record of op %r has no second tree" % c.get("op"))
         judge(ctx, dendropy, case, pending)
     else:
